@@ -9,6 +9,8 @@ import ZCV.Lemmas.NoInternalLower
 import ZCV.Lemmas.DischargeElab
 import ZCV.Lemmas.DischargeExamples
 import ZCV.Props.C10
+import ZCV.Lemmas.ImportOvFree
+import ZCV.Lemmas.ImportOvEx
 namespace ZCV.Props.C16
 open ZCV ZCV.Cfg
 
@@ -460,5 +462,173 @@ example : ∃ S, Elab.elabSchema Elab.Example.env 1 Elab.Example.doc = .ok S ∧
     (by intro kt s r hs hr; exact Elab.stockConv_key_ne_nil kt s r hs hr) hS _ _ _ _ _ r
     DischargeEx.dis_ex_lines_noImport DischargeEx.dis_ex_res hr
   exact ⟨items, h1, h4⟩
+
+end ZCV.Props.C16
+
+/-! ## the general form: texts with `%import` lines, loaded with command-line overrides (C16 with C12 and C14) -/
+
+namespace ZCV.Props.C16
+open ZCV ZCV.Cfg ZCV.Conf ZCV.Call
+
+/-- **The handler list is the post-order listing of the EDITED top-level items, in general.**  For every text (lines,
+    `%define`s, `%include`s of any depth, `%import`s) that meets no `%import` inside a section and whose imports keep the
+    schema of the load well-formed, every list of specifiers whose section-selecting components are basic keys, and key
+    types of the schema `S` the load starts with idempotent: whenever the loader returns a configuration, the handler
+    object returned with it holds `docHandlersI` (`ZCV/Spec/HandlersImport.lean`) of the top-level items of the text edited
+    as the specifiers ask (`editI`, against `S`): for each top-level section in file order its post-order entries —
+    listed, like its value, against the schema in force at its position —, then the document's own handler-bearing items
+    in schema order with the values `denoteI` holds for those attributes, the schema-level handler with the
+    configuration itself last.  The entries of overridden keys carry the override values (they are entries of the
+    EDITED items). -/
+theorem C16_handlers_postorder_general (conv : Conv) (env : Env) (pkgs : Str → Pkg) (S : Schema) (url : Option Str)
+    (lines : List Str) (specs : List Str) (r : LoadResult)
+    (hidem : KeyIdemOn conv S)
+    (htop : importsAtTop env url lines)
+    (hok : ∀ tops, treeOfI env url lines = .ok tops → importsOK pkgs S tops = true)
+    (hovs : ∀ ovs, specs.mapM addOption = .ok ovs → OvsOK ovs)
+    (h : load conv env pkgs S url lines specs = .ok r) :
+    ∃ ovs tops tops', specs.mapM addOption = .ok ovs ∧ treeOfI env url lines = .ok tops ∧
+      editI conv S tops ovs = .ok tops' ∧ denoteI conv S pkgs tops' = some r.value ∧
+      r.handlers = docHandlersI conv S pkgs tops' := by
+  obtain ⟨ovs, tops, tops', h1, h2, h3, h4, h5, _⟩ := load_ov_result conv env pkgs S url lines specs true (fun _ => hidem)
+    htop hok hovs r h
+  exact ⟨ovs, tops, tops', h1, h2, h3, h4, h5⟩
+
+/-- the same with the supplied lines spelled with the normalised key (`editNormI`): no assumption on the key types -/
+theorem C16_handlers_postorder_general_norm (conv : Conv) (env : Env) (pkgs : Str → Pkg) (S : Schema) (url : Option Str)
+    (lines : List Str) (specs : List Str) (r : LoadResult)
+    (htop : importsAtTop env url lines)
+    (hok : ∀ tops, treeOfI env url lines = .ok tops → importsOK pkgs S tops = true)
+    (hovs : ∀ ovs, specs.mapM addOption = .ok ovs → OvsOK ovs)
+    (h : load conv env pkgs S url lines specs = .ok r) :
+    ∃ ovs tops tops', specs.mapM addOption = .ok ovs ∧ treeOfI env url lines = .ok tops ∧
+      editNormI conv S tops ovs = .ok tops' ∧ denoteI conv S pkgs tops' = some r.value ∧
+      r.handlers = docHandlersI conv S pkgs tops' := by
+  obtain ⟨ovs, tops, tops', h1, h2, h3, h4, h5, _⟩ := load_ov_result conv env pkgs S url lines specs false
+    (fun h => by cases h) htop hok hovs r h
+  exact ⟨ovs, tops, tops', h1, h2, h3, h4, h5⟩
+
+/-- **Special case: no `%import` lines and no overrides** — the statement of `C16_text_handlers_postorder'`, recovered from
+    the general form: `docHandlersI` of a text without `%import` lines is `docHandlers` (`hkeys` is not needed). -/
+theorem C16_text_handlers_postorder_from_general (conv : Conv) (env : Env) (pkgs : Str → Pkg) (s : Schema) (url : Option Str)
+    (lines : List Str) (r : LoadResult) (hs : schemaOK s = true)
+    (hni : ∀ l ∈ lines, NoImportLine l) (hres : ∀ u ls, env.res u = some ls → ∀ l ∈ ls, NoImportLine l)
+    (h : load conv env pkgs s url lines [] = .ok r) :
+    ∃ items, treeOf env url lines = .ok items ∧ denote conv s items = some r.value ∧
+      r.handlers =
+        handlersOf conv s s.top items ++ (match s.handler with | some h => [(h, r.value)] | none => []) := by
+  obtain ⟨hfree, htop⟩ := treeOfI_import_free env url lines hni hres
+  have hitems : ∀ tops, treeOfI env url lines = .ok tops →
+      ∃ items, treeOf env url lines = .ok items ∧ tops = items.map .item ∧ lowItems items = true := by
+    intro tops ht
+    have hl := treeOfI_low env url lines tops ht
+    rw [ht] at hfree
+    cases hT : treeOf env url lines with
+    | error e => rw [hT] at hfree; cases hfree
+    | ok items =>
+      rw [hT] at hfree
+      simp only [Cfg.toOption_ok, Option.map_some, Option.some.injEq] at hfree
+      subst hfree
+      rw [lowTops_items] at hl
+      exact ⟨items, rfl, rfl, hl⟩
+  have hok : ∀ tops, treeOfI env url lines = .ok tops → importsOK pkgs s tops = true := by
+    intro tops ht
+    obtain ⟨items, _, rfl, _⟩ := hitems tops ht
+    rw [importsOK_items]
+    exact hs
+  obtain ⟨ovs, tops, tops', h1, h2, h3, h4, h5⟩ := C16_handlers_postorder_general_norm conv env pkgs s url lines [] r htop hok
+    (by
+      intro ovs h
+      simp only [List.mapM_nil, pure, Except.pure, Except.ok.injEq] at h
+      subst h
+      intro o ho; cases ho) h
+  simp only [List.mapM_nil, pure, Except.pure, Except.ok.injEq] at h1
+  subst h1
+  rw [show editNormI conv s tops [] = .ok tops from editBodyI_nil conv s false tops] at h3
+  cases h3
+  obtain ⟨items, hT, rfl, hl⟩ := hitems tops h2
+  rw [docHandlersI_items.C12_denoteI_free conv pkgs s items hs hl] at h4
+  rw [docHandlersI_items conv pkgs s items hs hl] at h5
+  refine ⟨items, hT, h4, ?_⟩
+  rw [h5]
+  unfold docHandlers
+  rw [h4]
+  cases s.handler <;> rfl
+
+/-- **`callHandlers`, unchanged**: the theorems on calling the composite handler (`C16_call_exactly_once`,
+    `C16_none_skipped`, `C16_all_or_nothing`, `C16_call_ok_iff`) hold for ANY handler list, hence for the list of a load
+    with `%import` lines and overrides; e.g. a complete map of callables delivers every entry of `docHandlersI` of the
+    edited items exactly once, in order. -/
+theorem C16_general_call_exactly_once (conv : Conv) (env : Env) (pkgs : Str → Pkg) (S : Schema) (url : Option Str)
+    (lines : List Str) (specs : List Str) (r : LoadResult)
+    (hidem : KeyIdemOn conv S)
+    (htop : importsAtTop env url lines)
+    (hok : ∀ tops, treeOfI env url lines = .ok tops → importsOK pkgs S tops = true)
+    (hovs : ∀ ovs, specs.mapM addOption = .ok ovs → OvsOK ovs)
+    (h : load conv env pkgs S url lines specs = .ok r)
+    (hm : HMap) (g : Str → Nat) (hv : Valid hm) (hn : ((keyed hm).map (·.1)).Nodup)
+    (hc : ∀ e ∈ r.handlers, ∃ p ∈ hm, DT.basicKey p.1 = .ok e.1 ∧ p.2 = some (g e.1)) :
+    ∃ ovs tops tops', specs.mapM addOption = .ok ovs ∧ treeOfI env url lines = .ok tops ∧
+      editI conv S tops ovs = .ok tops' ∧
+      callHandlers r.handlers hm = { err := none, log := (docHandlersI conv S pkgs tops').map fun e => (g e.1, e.2) } := by
+  obtain ⟨ovs, tops, tops', h1, h2, h3, _, h5⟩ := C16_handlers_postorder_general conv env pkgs S url lines specs r hidem htop
+    hok hovs h
+  refine ⟨ovs, tops, tops', h1, h2, h3, ?_⟩
+  rw [C16_call_exactly_once r.handlers hm g hv hn hc, h5]
+
+/-- … and a map that misses one of the names, or supplies two names that normalise alike, calls NOTHING -/
+theorem C16_general_all_or_nothing (r : LoadResult) (hm : HMap)
+    (h : (∃ e ∈ r.handlers, ∀ p ∈ hm, DT.basicKey p.1 ≠ .ok e.1) ∨
+         (∃ a p b q c n, hm = a ++ p :: (b ++ q :: c) ∧ DT.basicKey p.1 = .ok n ∧ DT.basicKey q.1 = .ok n)) :
+    (callHandlers r.handlers hm).err.isSome = true ∧ (callHandlers r.handlers hm).log = [] :=
+  C16_all_or_nothing r.handlers hm h
+
+/-- **End to end**, from a schema DOCUMENT (hypotheses as in `C01_end_to_end_general`) -/
+theorem C16_end_to_end_general (eenv : Elab.Env) (fuel : Nat) (doc : Elab.Node) (S : Schema)
+    (hkey : ∀ (kt s r : Str), s ≠ [] → eenv.conv.key kt s = .ok r → r ≠ [])
+    (hS : Elab.elabSchema eenv fuel doc = .ok S)
+    (conv : Conv) (env : Env) (pkgs : Str → Pkg) (url : Option Str) (lines : List Str) (specs : List Str) (r : LoadResult)
+    (hidem : KeyIdemOn conv S)
+    (htop : importsAtTop env url lines)
+    (hcomp : ∀ tops, treeOfI env url lines = .ok tops → compsOK pkgs S tops = true)
+    (hovs : ∀ ovs, specs.mapM addOption = .ok ovs → OvsOK ovs)
+    (h : load conv env pkgs S url lines specs = .ok r) :
+    ∃ ovs tops tops', specs.mapM addOption = .ok ovs ∧ treeOfI env url lines = .ok tops ∧
+      editI conv S tops ovs = .ok tops' ∧ denoteI conv S pkgs tops' = some r.value ∧
+      r.handlers = docHandlersI conv S pkgs tops' :=
+  C16_handlers_postorder_general conv env pkgs S url lines specs r hidem htop
+    (fun tops ht => importsOK_of_compsOK pkgs tops S (ZCV.Props.C10.C10_elab_schemaOK eenv fuel doc S hkey hS) (hcomp tops ht))
+    hovs h
+
+/-- **non-vacuity**: in the world of `ZCV/Lemmas/ImportOvEx.lean` (handlers on the key `k` of both section types, on the
+    slot and on the schema; text with a `%import` line, a section of the imported type and a section of a static type;
+    an override into the latter and a top-level key override) the load is accepted and the theorem gives its handler
+    list: `hk` of section `a` (value from the text), `hk` of section `b` (the OVERRIDE value), `hs` with both sections,
+    `hall` with the configuration -/
+example : ∃ r, load ExOv.conv ExOv.env ExOv.pkgs ExOv.schema none (ExOv.lines '1') ExOv.specsGood = .ok r ∧
+    r.handlers = [("hk".toList, .str ['1']), ("hk".toList, .str ['2']),
+                  ("hs".toList, .list [ExOv.vLeak '1', ExOv.vSt '2']), ("hall".toList, ExOv.vGood)] := by
+  have hacc : ∃ r, load ExOv.conv ExOv.env ExOv.pkgs ExOv.schema none (ExOv.lines '1') ExOv.specsGood = .ok r := by
+    have e := load_ov_eq_denoteI ExOv.conv ExOv.env ExOv.pkgs ExOv.schema none (ExOv.lines '1') ExOv.specsGood true
+      (fun _ => ExOv.idem) ExOv.atTop1 ExOv.ok1 ExOv.ovsGood_ok
+    rw [ExOv.split_good, ExOv.tree1] at e
+    simp only [Cfg.toOption_ok, Option.bind_some] at e
+    rw [show editBodyI ExOv.conv ExOv.schema true (ExOv.tops '1') ExOv.ovsGood = .ok ExOv.topsGood from ExOv.edit_good] at e
+    simp only [Cfg.toOption_ok, Option.bind_some] at e
+    rw [ExOv.denote_good] at e
+    cases hl : load ExOv.conv ExOv.env ExOv.pkgs ExOv.schema none (ExOv.lines '1') ExOv.specsGood with
+    | ok r => exact ⟨r, rfl⟩
+    | error x => rw [hl] at e; cases e
+  obtain ⟨r, hr⟩ := hacc
+  refine ⟨r, hr, ?_⟩
+  obtain ⟨ovs, tops, tops', h1, h2, h3, _, h5⟩ := C16_handlers_postorder_general ExOv.conv ExOv.env ExOv.pkgs ExOv.schema none
+    (ExOv.lines '1') ExOv.specsGood r ExOv.idem ExOv.atTop1 ExOv.ok1 ExOv.ovsGood_ok hr
+  rw [ExOv.split_good] at h1
+  cases h1
+  rw [ExOv.tree1] at h2
+  cases h2
+  rw [ExOv.edit_good] at h3
+  cases h3
+  rw [h5, ExOv.handlers_good]
 
 end ZCV.Props.C16
